@@ -19,9 +19,9 @@ struct H : drv::Harness
 		Plan p; drv::draw_sched_knobs(p, rng, true);
 		World::draw_net_knobs(p, rng);
 		p.knobs["initiator"] = rng.below(2);
-		p.knobs["pm"] = rng.chance(0.75) ? pm_thread : pm_coro;
+		{ int x = (int)rng.below(20); p.knobs["pm"] = x < 12 ? pm_thread : x < 15 ? pm_coro : pm_pipeline; }
 		p.knobs["pers"] = rng.chance(0.5) ? 2 : 1;
-		p.knobs["hb"] = rng.pick(std::vector<int64_t>{ 1, 2, 5, 30 });
+		p.knobs["hb"] = p.knobs["pm"] == pm_pipeline ? 30 : rng.pick(std::vector<int64_t>{ 1, 2, 5, 30 });   // a pipelined session must not time out (it cannot be stopped)
 		if (rng.chance(0.2)) { p.knobs["cfg_send"] = rng.range(2, 60); p.knobs["cfg_recv"] = 0; }
 		int n = (int)rng.range(2, thorough ? 40 : 18);
 		for (int i = 0; i < n; ++i)
@@ -126,7 +126,7 @@ struct H : drv::Harness
 				w.peer.send_msg("2", { {7, std::to_string(b)}, {16, std::to_string(e)} }); sim::count("op_resend_request");
 			}
 			else if (op.k == "silence") sim::advance(op.arg(0) * 1000000ll);
-			else if (op.k == "restart")
+			else if (op.k == "restart" && !w.pipelined())
 			{
 				w.settle(); scan_wire();
 				// the numbers the next session must recover
